@@ -100,7 +100,8 @@ func (ex *Exec) runGhostSetsRes(st *State, fr *Frame, sets []*GhostSet, sig *typ
 			vals = append(vals, env.eval(e))
 		}
 		for i, n := range gs.Names {
-			env.setGhostGlobal(n, vals[i])
+			_ = n
+			env.assignGhost(gs, i, vals[i])
 		}
 	}
 }
@@ -159,6 +160,11 @@ func (ex *Exec) callValue(st *State, fr *Frame, c *ssa.CallCommon, fnv Value, ar
 	}
 	if b, ok := c.Value.(*ssa.Builtin); ok {
 		setRes(ex.builtin(st, fr, b, c, args, pos))
+		return false
+	}
+	// a named function type with a contract (iface block keyed by the type name)
+	if sp, ok := ex.Specs.Ifaces[typeName(c.Value.Type())]; ok {
+		setRes(ex.applyContract(st, fr, sp, nil, sig, args, pos, ""))
 		return false
 	}
 	// cancelling a context touches nothing the contracts talk about
@@ -364,6 +370,10 @@ func (ex *Exec) escapeArgs(st *State, args []Value) {
 func (ex *Exec) unknownCall(st *State, fr *Frame, what string, sig *types.Signature, args []Value, dst ssa.Value, repo bool) {
 	ex.note("havoc: " + what)
 	if repo || carriesCallback(args) {
+		// code we know nothing about may write anything: not compatible with a stated frame
+		if top := ex.topFrame(st); top.Spec != nil && !top.Spec.ModAll && ex.pure == nil {
+			ex.emit(st, "frame", "call:unknown:"+what, False, token.NoPos, top.Spec.Props)
+		}
 		ex.havocAll(st, true, true)
 	} else {
 		ex.escapeArgs(st, args)
